@@ -12,6 +12,8 @@ use crate::run::{self, Verdict};
 use crate::scenario::{Scenario, SchedSpec};
 use crate::simsched::Trace;
 use grevm::verif::drivers::sched::{self, CursorScenario, DepScenario, DriverReport, FrontierScenario, Outcome, ReplaceScenario, WaitScenario};
+use grevm::verif::drivers::{HistEffect, HistOp, HistScenario};
+use revm_primitives::U256;
 use serde_json::{Value, json};
 use std::path::Path;
 use std::sync::Arc;
@@ -26,6 +28,7 @@ pub enum Component {
     Dependency(DepScenario),
     Replace(ReplaceScenario),
     Wait(WaitScenario),
+    History(HistScenario),
 }
 
 impl Component {
@@ -36,6 +39,7 @@ impl Component {
             Component::Dependency(_) => "tx-dependency",
             Component::Replace(_) => "tx-dependency-api-replace-blocker",
             Component::Wait(_) => "wait-slot",
+            Component::History(_) => "beneficiary-history",
         }
     }
 
@@ -53,13 +57,61 @@ impl Component {
                 "claimers": r.claimers, "pop_next": r.pop_next, "race_second_add": r.race_second_add}),
             Component::Wait(w) => json!({"kind": "wait", "notifiers": w.notifiers, "publishes_per_notifier": w.publishes_per_notifier,
                 "register_delay": w.register_delay, "targets": w.targets}),
+            Component::History(h) => {
+                let acct = |a: &Option<(U256, u64)>| match a {
+                    Some((b, n)) => json!({"balance": format!("{b:#x}"), "nonce": n}),
+                    None => Value::Null,
+                };
+                json!({"kind": "history", "n": h.n, "anchor": acct(&h.anchor),
+                    "tasks": h.tasks.iter().map(|t| t.iter().map(|o| match o {
+                        HistOp::Yield => json!("yield"),
+                        HistOp::Resolve { t } => json!({"resolve": t}),
+                        HistOp::Revalidate { k } => json!({"revalidate": k}),
+                        HistOp::Invalidate { tx, inc } => json!({"invalidate": [tx, inc]}),
+                        HistOp::Record { tx, inc, effect } => json!({"record": [tx, inc], "effect": match effect {
+                            HistEffect::Estimate => json!("estimate"),
+                            HistEffect::Unchanged => json!("unchanged"),
+                            HistEffect::Reward(a) => json!({"reward": format!("{a:#x}")}),
+                            HistEffect::Snapshot(s) => json!({"snapshot": acct(s)}),
+                        }}),
+                    }).collect::<Vec<_>>()).collect::<Vec<_>>()})
+            }
         }
     }
 
     pub fn from_json(v: &Value) -> Self {
         let us = |x: &Value| x.as_u64().unwrap() as usize;
         let list = |x: &Value| x.as_array().unwrap().iter().map(|y| y.as_u64().unwrap() as usize).collect::<Vec<_>>();
+        let u256 = |x: &Value| U256::from_str_radix(x.as_str().unwrap().trim_start_matches("0x"), 16).unwrap();
+        let acct = |x: &Value| if x.is_null() { None } else { Some((u256(&x["balance"]), x["nonce"].as_u64().unwrap())) };
         match v["kind"].as_str().unwrap() {
+            "history" => Component::History(HistScenario {
+                n: us(&v["n"]),
+                anchor: acct(&v["anchor"]),
+                tasks: v["tasks"].as_array().unwrap().iter().map(|t| t.as_array().unwrap().iter().map(|o| {
+                    if o.as_str() == Some("yield") {
+                        HistOp::Yield
+                    } else if !o["resolve"].is_null() {
+                        HistOp::Resolve { t: us(&o["resolve"]) }
+                    } else if !o["revalidate"].is_null() {
+                        HistOp::Revalidate { k: us(&o["revalidate"]) }
+                    } else if !o["invalidate"].is_null() {
+                        HistOp::Invalidate { tx: us(&o["invalidate"][0]), inc: us(&o["invalidate"][1]) }
+                    } else {
+                        let e = &o["effect"];
+                        let effect = if e.as_str() == Some("estimate") {
+                            HistEffect::Estimate
+                        } else if e.as_str() == Some("unchanged") {
+                            HistEffect::Unchanged
+                        } else if !e["reward"].is_null() {
+                            HistEffect::Reward(u256(&e["reward"]))
+                        } else {
+                            HistEffect::Snapshot(acct(&e["snapshot"]))
+                        };
+                        HistOp::Record { tx: us(&o["record"][0]), inc: us(&o["record"][1]), effect }
+                    }
+                }).collect()).collect(),
+            }),
             "cursor" => Component::Cursor(CursorScenario {
                 n: us(&v["n"]),
                 limit: us(&v["limit"]),
@@ -115,6 +167,7 @@ pub fn plan(check: &str, seed: u64, idx: u64, tier: Tier) -> (Component, SchedSp
     let mut rng = Prng::new(derive(seed, 0xc0a9_0000 ^ idx.wrapping_mul(0x9E37)));
     let big = tier == Tier::Thorough;
     let comp = match check {
+        "C07" => Component::History(plan_history(&mut rng, big)),
         "C15" => {
             if rng.chance(3, 5) {
                 let n = rng.range(2, if big { 8 } else { 6 }) as usize;
@@ -180,7 +233,7 @@ pub fn plan(check: &str, seed: u64, idx: u64, tier: Tier) -> (Component, SchedSp
         }
     };
     // lost wake-ups and orphans are only decidable when nothing else could wake a parked task
-    let mode = if check == "C15" || rng.chance(1, 4) { SchedMode::Any } else { SchedMode::Strict };
+    let mode = if check == "C15" || check == "C07" || rng.chance(1, 4) { SchedMode::Any } else { SchedMode::Strict };
     let mut sched = checks::sched_for(seed, idx, mode);
     sched.n1 = checks::N1;
     sched.n2 = checks::N2;
@@ -200,7 +253,84 @@ fn property_of(c: &Component) -> &'static str {
         Component::Cursor(_) | Component::Frontier(_) => "C15",
         Component::Dependency(_) | Component::Replace(_) => "C16",
         Component::Wait(_) => "C17",
+        Component::History(_) => "C07",
     }
+}
+
+/// Seeded scenario for the beneficiary-history component: 2-4 entries; per entry a chain of rising
+/// incarnations with unique effects (every reward amount and snapshot balance occurs once, so an
+/// account value identifies the versions it was folded from), scattered over 2-3 tasks in an order
+/// that makes some publications stale; invalidations of current, stale and future incarnations;
+/// reads before assorted transactions, re-validated while writers are still active. A third of the
+/// scenarios put the anchor or a snapshot within reach of U256::MAX so that the order of the
+/// checked additions matters.
+fn plan_history(rng: &mut Prng, big: bool) -> HistScenario {
+    let n = rng.range(2, if big { 5 } else { 4 }) as usize;
+    let near_max = rng.chance(1, 3);
+    let mut uniq = 0u64;
+    let mut amount = |rng: &mut Prng, near_max: bool| -> U256 {
+        uniq += 1;
+        if near_max && rng.chance(1, 2) { U256::MAX - U256::from(1000 + uniq * 7) } else { U256::from(1000 * uniq + rng.below(900)) }
+    };
+    let anchor = match rng.below(4) {
+        0 => None,
+        _ => Some((if near_max { U256::MAX - U256::from(5000u64 + rng.below(5000)) } else { U256::from(1_000_000u64 + rng.below(1000)) }, rng.below(3))),
+    };
+    let n_tasks = rng.range(2, 3) as usize;
+    let mut tasks: Vec<Vec<HistOp>> = vec![Vec::new(); n_tasks];
+    // writer operations, grouped per entry in incarnation order, then scattered
+    let mut pool: Vec<HistOp> = Vec::new();
+    for tx in 0..n {
+        let incs = rng.below(4) as usize;
+        for inc in 1..=incs {
+            let effect = match rng.below(10) {
+                0 => HistEffect::Estimate,
+                1 | 2 => HistEffect::Unchanged,
+                3 | 4 => HistEffect::Snapshot(if rng.chance(1, 4) { None } else { Some((amount(rng, near_max), 1 + rng.below(3))) }),
+                _ => HistEffect::Reward(amount(rng, near_max)),
+            };
+            pool.push(HistOp::Record { tx, inc, effect });
+            if rng.chance(1, 6) {
+                // a second publication for an incarnation that already published (or for incarnation 0):
+                // the first one must win
+                let dup_inc = if rng.chance(1, 4) { 0 } else { inc };
+                let effect = if rng.chance(1, 2) { HistEffect::Estimate } else { HistEffect::Reward(amount(rng, near_max)) };
+                pool.push(HistOp::Record { tx, inc: dup_inc, effect });
+            }
+            if rng.chance(2, 5) {
+                // validation failure of this incarnation, of an older one, or a duplicate
+                let target = if rng.chance(3, 4) { inc } else { rng.below(inc as u64 + 2) as usize };
+                pool.push(HistOp::Invalidate { tx, inc: target });
+            }
+        }
+    }
+    // mostly in order (as the scheduler produces them), with local swaps so that stale operations arrive late
+    for _ in 0..rng.below(4) {
+        if pool.len() >= 2 {
+            let i = rng.below(pool.len() as u64 - 1) as usize;
+            let j = (i + 1 + rng.below(2) as usize).min(pool.len() - 1);
+            pool.swap(i, j);
+        }
+    }
+    for op in pool {
+        let t = rng.below(n_tasks as u64) as usize;
+        tasks[t].push(op);
+        if rng.chance(1, 5) {
+            tasks[t].push(HistOp::Yield);
+        }
+    }
+    // reads sprinkled into the tasks
+    for task in tasks.iter_mut() {
+        let reads = rng.range(1, 3) as usize;
+        for k in 0..reads {
+            let pos = rng.below(task.len() as u64 + 1) as usize;
+            task.insert(pos, HistOp::Resolve { t: rng.range(1, n as u64) as usize });
+            if rng.chance(1, 2) {
+                task.push(HistOp::Revalidate { k });
+            }
+        }
+    }
+    HistScenario { n, anchor, tasks }
 }
 
 pub fn run_component(comp: &Component, sched: &SchedSpec, replay: Option<Trace>, record_trace: bool) -> ComponentOutput {
@@ -213,6 +343,7 @@ pub fn run_component(comp: &Component, sched: &SchedSpec, replay: Option<Trace>,
             Component::Dependency(s) => sched::tx_dependency(s),
             Component::Replace(s) => sched::dependency_replace(s),
             Component::Wait(s) => sched::wait_slot(s),
+            Component::History(s) => grevm::verif::drivers::beneficiary_history(s),
         };
         Box::new(report) as Box<dyn std::any::Any + Send>
     });
@@ -254,6 +385,7 @@ pub fn run_component(comp: &Component, sched: &SchedSpec, replay: Option<Trace>,
             stats.behaviour = 0xdead;
             let class = match comp {
                 Component::Wait(_) => "wait.lost_wakeup",
+                Component::History(_) => "history.deadlock",
                 Component::Dependency(_) | Component::Replace(_) => "dependency.orphan_deadlock",
                 _ => "cursor.deadlock",
             };
@@ -269,6 +401,7 @@ pub fn run_component(comp: &Component, sched: &SchedSpec, replay: Option<Trace>,
             stats.behaviour = 0x57e9;
             let class = match comp {
                 Component::Wait(_) => "wait.no_progress",
+                Component::History(_) => "history.no_progress",
                 Component::Dependency(_) | Component::Replace(_) => "dependency.orphan_livelock",
                 _ => "cursor.no_progress",
             };
